@@ -18,6 +18,22 @@
 //! and the DFS enumerates all of them (decisions that move nobody are skipped), i.e. every order of the lock scopes of R and C that the
 //! fair locks admit when an actor asks for its next lock as soon as it has left the previous scope.
 //!
+//! Which places of the reload that pins (scenario `change`, the others alike; `search` prints the list for the first scenario): the client's first
+//! notification arrives when the reload is not started / queued for its snapshot (before the snapshot) / queued for clear_non_std_workspaces
+//! (between snapshot and load) / waiting for the client's progress answer (between snapshot and load, no lock asked for: the handlers run
+//! freely) / queued for the disk load / queued for the first snapshot of the version loop (between load and re-application) / queued in
+//! register_files_watch (after the loop) / finished; every later lock scope of the client is ordered against every later lock scope of
+//! the reload in all ways the fair locks admit — that includes "between a snapshot of the version loop and its application". "During the
+//! load" (the reload holds analysis.write) is the order "the handler's store write before the load's end, its analysis scope after it":
+//! lock scopes are atomic (everything the two actors share sits behind the two locks), so running the handler's workspace-manager scope
+//! while the reload holds analysis.write is the same as running it just before the load with the handler then queued behind the load.
+//!
+//! Bounds (what a run that finds nothing does NOT say): one reload, one client script of at most two notifications per scenario; an actor
+//! asks for its next lock as soon as it has left the previous scope (a handler that is preempted between two scopes for so long that the
+//! reload passes SEVERAL scopes meanwhile is not produced; a reload that waits on the client is); client capabilities with pull diagnostics
+//! and dynamic watched-files registration, so no diagnostics task and no fs watcher runs next to the two actors; the reindex path and the
+//! public entry point add_reload_workspace_task are run sequentially only.
+//!
 //! usage: replay search [--budget-s N] [--max-schedules N] [--only SCENARIO] [-v]      exit 0 nothing found / 1 FOUND / 2 cannot set up
 //!        replay replay SCENARIO SCHEDULE        (SCHEDULE as printed: e.g. startR,wm,startC,an,answer,...)  prints every step
 //!        replay list
@@ -562,6 +578,51 @@ mod search {
     }
 
     // ------------------------------------------------------------------------------------------------------------------
+    // the public reload entry point (WorkspaceManager::add_reload_workspace_task: reads <root>/.emmyrc.json itself, reload_lock, generation):
+    // one sequential run, so that what the DFS drives through the wrapper is also seen through the door the server uses
+    // ------------------------------------------------------------------------------------------------------------------
+    async fn wait_refresh(server: &Server, what: &str) -> Result<(), String> {
+        let (mut progress, mut refresh) = (VecDeque::new(), 0usize);
+        let t0 = Instant::now();
+        loop {
+            server.drain(&mut progress, &mut refresh);
+            while let Some(id) = progress.pop_front() { server.answer(id).await; }
+            if refresh > 0 { return Ok(()); }
+            if t0.elapsed() > Duration::from_secs(20) { return Err(format!("{what} did not report back (no workspace/diagnostic/refresh within 20 s)")); }
+            tokio::time::sleep(Duration::from_millis(1)).await;
+        }
+    }
+    async fn entry_scenario(verbose: bool) -> Result<Vec<String>, String> {
+        let ws = Workspace::create(CONFIG_1)?;
+        let server = Server::new();
+        let snap = server.context.snapshot();
+        { snap.workspace_manager().write().await.workspace_folders = ws.folders(); }
+        { snap.workspace_manager().read().await.add_reload_workspace_task(snap.clone()); }
+        wait_refresh(&server, "the first reload task").await?;
+        if analysed(&snap, &ws.uri(Doc::Main)).await.as_deref() != Doc::Main.disk() || analysed(&snap, &ws.uri(Doc::Late)).await.is_some() {
+            return Err("the first reload task did not load main.lua / did load the excluded extra/late.lua".to_string());
+        }
+        for n in [Note::Open(Doc::Main, MAIN_V1), Note::Open(Doc::Late, LATE_ED)] {
+            let Note::Open(d, _) = n else { unreachable!() };
+            run_alone(&server, Box::pin(notify(snap.clone(), ws.uri(d), n)), "didOpen").await?;
+        }
+        std::fs::write(ws.root.join(".emmyrc.json"), CONFIG_2).map_err(|e| e.to_string())?;
+        { snap.workspace_manager().read().await.add_reload_workspace_task(snap.clone()); }
+        wait_refresh(&server, "the reload task after the config change").await?;
+        if !snap.workspace_manager().read().await.is_workspace_file(&ws.uri(Doc::Late)) { return Err("extra/late.lua is not a workspace file after the config change".to_string()); }
+        let mut found = Vec::new();
+        for (d, want, open) in [(Doc::Main, Some(MAIN_V1), true), (Doc::Late, Some(LATE_ED), true), (Doc::Other, Doc::Other.disk(), false), (Doc::Idle, Doc::Idle.disk(), false), (Doc::Ghost, None, false)] {
+            let got = analysed(&snap, &ws.uri(d)).await;
+            if verbose { println!("  {}: analysed {:?}", d.rel(), got); }
+            if got.as_deref() == want { continue; }
+            found.push(if open { format!("open document {} is analysed with {:?}, the editor's last text is {:?}", d.rel(), got, want.unwrap()) }
+                else { format!("closed document {} is analysed with {:?}, {}", d.rel(), got, match want { Some(t) => format!("its file holds {:?}", t), None => "it has no file (must be absent)".to_string() }) });
+        }
+        server.context.close().await;
+        Ok(found)
+    }
+
+    // ------------------------------------------------------------------------------------------------------------------
     // DFS over the schedules
     // ------------------------------------------------------------------------------------------------------------------
     fn parse_schedule(s: &str) -> Result<Vec<usize>, String> {
@@ -577,7 +638,8 @@ mod search {
         let flag = |name: &str| args.iter().position(|a| a == name).and_then(|i| args.get(i + 1)).cloned();
         let verbose = args.iter().any(|a| a == "-v");
         match mode {
-            "list" => { for s in SCENARIOS { println!("{:<14} {}  [{}]", s.name, s.about, s.script.iter().map(|n| n.show()).collect::<Vec<_>>().join("; ")); } println!("{:<14} didSave with workspace.enableReindex while documents are open whose file is gone", "reindex"); }
+            "list" => { for s in SCENARIOS { println!("{:<14} {}  [{}]", s.name, s.about, s.script.iter().map(|n| n.show()).collect::<Vec<_>>().join("; ")); }
+                println!("{:<14} the public entry point add_reload_workspace_task, sequential: documents opened before the reload, one joins the workspace", "entry"); println!("{:<14} didSave with workspace.enableReindex while documents are open whose file is gone", "reindex"); }
             "replay" => {
                 let (Some(name), Some(sched)) = (args.get(1), args.get(2)) else { println!("usage: replay replay SCENARIO SCHEDULE"); std::process::exit(2); };
                 let Some(scn) = SCENARIOS.iter().find(|s| s.name == name) else { println!("unknown scenario {name}"); std::process::exit(2); };
@@ -629,6 +691,7 @@ mod search {
             let mut truncated = false;
             let mut first_bad: Option<Outcome> = None;
             let mut stuck_reported = false;
+            let mut starts: Vec<(usize, &'static str)> = Vec::new();
             'dfs: loop {
                 if t_s.elapsed() > share || schedules >= max_schedules { truncated = true; break; }
                 let out = run(execute(scn, &prefix, min_last, false));
@@ -642,6 +705,13 @@ mod search {
                 }
                 schedules += 1;
                 longest = longest.max(out.path.len());
+                if let Some(i) = out.trace.iter().position(|l| l == "startC") {
+                    let of_reload = |l: &String| l == "startR" || l == "answer" || l.split("->").nth(1).is_some_and(|m| m.split('+').any(|x| x == "R"));
+                    let done = out.trace[..i].iter().filter(|l| of_reload(l)).count();
+                    let next = out.trace[i..].iter().find(|l| of_reload(l)).map(|l| match l.split("->").next().unwrap() { "startR" => "not started", "wm" => "queued on workspace_manager", "an" => "queued on analysis", _ => "waits for the client" }).unwrap_or("finished");
+                    let e = (done, next);
+                    if !starts.contains(&e) { starts.push(e); }
+                }
                 if verbose { println!("  {} {}", scn.name, out.trace.join(" ")); }
                 if let Status::Completed(v) = &out.status {
                     // one violating schedule per scenario is enough (DFS order: the reload runs as far as it can before the client starts)
@@ -657,6 +727,10 @@ mod search {
             }
             total += schedules;
             if known_here > 0 { known += 1; }
+            if verbose || k == 0 {
+                starts.sort();
+                println!("  the client's first notification arrives when the reload has done n lock scopes / answers and is ...: {}", starts.iter().map(|(n, w)| format!("{n}: {w}")).collect::<Vec<_>>().join("; "));
+            }
             if let Some(out) = &first_bad {
                 found += 1;
                 report_one(scn, out, false);
@@ -665,6 +739,18 @@ mod search {
             println!("scenario {:<14} {:>5} schedules ({} runs, longest {} decisions, {:.1} s){}{}{}  -- {}", scn.name, schedules, runs, longest, t_s.elapsed().as_secs_f64(),
                 if truncated { " BOUND: budget reached, not all schedules tried" } else if first_bad.is_some() { " stopped at the first violation" } else { " = all schedules of the DFS" },
                 if first_bad.is_some() { " VIOLATION" } else { "" }, if known_here > 0 { format!(" ({known_here} schedules show the KNOWN-OPEN finding)") } else { String::new() }, scn.about);
+        }
+        if only.is_none() || only == Some("entry") {
+            let t_r = Instant::now();
+            match run(entry_scenario(verbose)) {
+                Err(e) => { println!("SETUP-FAILED scenario=entry: {e}"); undecided += 1; }
+                Ok(v) => {
+                    for what in &v { println!("FOUND {} scenario=entry client=[didOpen(main.lua, unsaved); didOpen(extra/late.lua, unsaved) while it is no workspace file; .emmyrc.json changes; add_reload_workspace_task] schedule=sequential", what); }
+                    if !v.is_empty() { found += 1; }
+                    println!("scenario {:<14} sequential ({:.1} s){}  -- the same through WorkspaceManager::add_reload_workspace_task (reads .emmyrc.json itself): open before the reload, one of them joins the workspace",
+                        "entry", t_r.elapsed().as_secs_f64(), if v.is_empty() { "" } else { " VIOLATION" });
+                }
+            }
         }
         if only.is_none() || only == Some("reindex") {
             let t_r = Instant::now();
